@@ -112,7 +112,7 @@ Definition find_rules_full (sy : system) (name : string) (c : ctx) (e : env) (se
           | Ok _ => with_loc_e sy1 name (fun l => find_children_full l [(id, body)] event (e_now e) false [])
           | _ => (sy1, Err "nonfatal")
           end
-      | (sy1, Err x) => (sy1, Err "nonfatal")
+      | (sy1, Err x) => (sy1, Err x)   (* GetRule's error (its message is the disposition) *)
       | (sy1, Panic w) => (sy1, Panic w)
       | (sy1, OutOfFuel) => (sy1, OutOfFuel)
       end
